@@ -717,7 +717,7 @@ func runProperty(prop *PropSpec, tier string, seed int, verbose int, only string
 		cands := map[string]*cand{}
 		for _, loc := range locs {
 			a := acc[loc]
-			if a.Writes == 0 || a.Unlocked == 0 {
+			if a.Writes == 0 || a.Unlocked == 0 || confined(a) {
 				continue
 			}
 			var ws, us []string
